@@ -3,7 +3,7 @@ CONSTANTS
   MaxReq = 5
   MaxInflight = 3
   MaxDone = 5
-  Defects = {"ExitBeforeTransfer"}
+  Defects = {"PublishedBeforeComplete"}
   EmitCases = FALSE
 SPECIFICATION Spec
 INVARIANTS TypeOK BytesIntact OneReply NoLoss HandedOver Released DecodedBy Adopted
